@@ -1001,14 +1001,12 @@ def decode_day_of_week(data: int) -> str:
     if data == 0:
         return ""
     bits = bin(data)[2:]
-    daynames = list(DAY_NAMES)
     days = ""
-    for each in bits[::-1]:
+    for each, dayname in zip(bits[::-1], DAY_NAMES):
         if each == '1':
             if len(days) > 0:
                 days += ","
-            days += daynames[0]
-        daynames.pop(0)
+            days += dayname
     return days
 
 
@@ -1016,12 +1014,10 @@ def decode_months(data: int) -> str | None:
     if data <= 0 or data == 0x0fff:
         return None
     bits = bin(data)[2:]
-    monthnames = list(MONTH_NAMES)
     months = ""
-    for each in bits[::-1]:
+    for each, monthname in zip(bits[::-1], MONTH_NAMES):
         if each == '1':
             if len(months) > 0:
                 months += ","
-            months += monthnames[0]
-        monthnames.pop(0)
+            months += monthname
     return months
